@@ -108,14 +108,14 @@ def opts_for(r, op):
     from .props import PRES
     o = {"via": r.choice(RVIAS), "pre": r.choice(PRES + [None, None])}
     if op in ("getitem", "setitem"):
-        o["spelling"] = r.choice(["plain", "plain", "tuple", "empty"])
+        o["spelling"] = r.choice(["plain", "plain", "tuple", "empty", "numpy", "numpy32"])
     if op == "setitem":
         o["npscalar"] = r.random() < 0.3
         o["collist"] = r.random() < 0.3
     if op in ("ufunc",):
         o["how"] = r.choice(["ufunc", "operator"])
     if op in ("reduce", "scan", "nonzero", "col"):
-        o["how"] = r.choice(["method", "np"])
+        o["how"] = r.choice(["method", "np", "positional"] if op == "reduce" else ["method", "np"])
     if op in ("where", "subset"):
         o["via2"] = r.choice(RVIAS)
     if op == "ragged_slice":
@@ -258,7 +258,7 @@ def gen_c03(r):
 BINARY = ["add", "subtract", "multiply", "maximum", "minimum", "less", "less_equal", "greater", "greater_equal", "equal",
           "not_equal", "logical_and", "logical_or", "logical_xor", "bitwise_and", "bitwise_or", "bitwise_xor"]
 UNARY = ["negative", "absolute", "invert", "logical_not"]
-C04_DTS = ["b1", "i1", "i2", "i4", "i8", "u1", "f4", "f8"]
+C04_DTS = ["b1", "i1", "i2", "i4", "i8", "u1", "u2", "f2", "f4", "f8"]
 
 
 def gen_c04(r):
